@@ -24,6 +24,24 @@ def flatten(t, prefix, out):
     return out
 
 
+def path_type(F, struct, p):
+    """rust type string of the state field at path 'self.a.b' of `struct` (None if unknown)"""
+    import ir
+    s_ = struct
+    ty = None
+    for name in p.split(".")[1:]:
+        if name.startswith("@") or name.isdigit():
+            continue
+        fs = F.struct_fields(s_) or []
+        fd = [f for f in fs if f["name"] == name]
+        if not fd:
+            return None
+        ty = fd[0]["ty"]
+        if ty.get("k") == "adt" and ty.get("krate") == F.d["crate"]:
+            s_ = ir.short(ty["path"])
+    return ty["s"] if ty else None
+
+
 def premises(kind):
     """kind: 'positive' (C07/C08: positive prices, valid bars, volume >= 0) | 'finite' (C09: any finite input, low <= high)"""
     atoms = {}
